@@ -190,29 +190,38 @@ func (c *Ctx) sizeSinks() []sizeSink {
 }
 
 // boundedBy: the sink is reachable only through the surviving arm of a comparison of the full-width tainted value with an untainted bound.
-func boundedBy(s sizeSink) (bool, string) {
+func (c *Ctx) boundedBy(s sizeSink) (bool, string) {
 	fn := s.fn
 	cut := ssau.NewCut()
-	n := 0
 	desc := ""
-	for _, i := range ssau.Ifs(fn) {
+	// operands of a comparison inside a checking helper stand for the caller's arguments
+	subst := func(v ssa.Value) ssa.Value {
+		v = stripConv(v, true)
+		if p, ok := v.(*ssa.Parameter); ok {
+			if a, ok := ssau.ParamSubst[p]; ok {
+				return stripConv(a, true)
+			}
+		}
+		return v
+	}
+	n := c.matchGuards(fn, func(i *ssa.If) (bool, bool) {
 		base, neg := ssau.StripNot(i.Cond)
 		b, ok := base.(*ssa.BinOp)
 		if !ok {
-			continue
+			return false, false
 		}
 		var other ssa.Value
 		var op token.Token
 		switch {
-		case sameRoot(stripConv(b.X, true), s.root):
+		case sameRoot(subst(b.X), s.root):
 			other, op = b.Y, b.Op
-		case sameRoot(stripConv(b.Y, true), s.root):
+		case sameRoot(subst(b.Y), s.root):
 			other, op = b.X, mirror(b.Op)
 		default:
-			continue
+			return false, false
 		}
-		if _, _, tainted := taintedRoot(other, 0); tainted {
-			continue
+		if _, _, tainted := taintedRoot(subst(other), 0); tainted {
+			return false, false
 		}
 		// root OP other ; surviving arm is where root is bounded above
 		var surviving bool
@@ -222,12 +231,11 @@ func boundedBy(s sizeSink) (bool, string) {
 		case token.LSS, token.LEQ:
 			surviving = true
 		default:
-			continue
+			return false, false
 		}
-		n++
 		desc = ssau.CondString(base)
-		cut.AddEdge(i.Block(), ssau.Arm(i, surviving != neg))
-	}
+		return true, surviving != neg
+	}, cut, 0)
 	if n == 0 {
 		return false, "no comparison of the decoded value with a bound"
 	}
@@ -247,7 +255,7 @@ func (c *Ctx) tAlloc(rule string, floorSinks, floorBounded int, tabled map[strin
 			root = root.Parent()
 		}
 		key := fmt.Sprintf("alloc|%s|%s<-%s", fname(root), s.what, s.source)
-		ok, why := boundedBy(s)
+		ok, why := c.boundedBy(s)
 		if ok {
 			nb++
 			c.R.Check(rule, key, true, c.posOf(s.in), why)
